@@ -136,6 +136,25 @@ fn big_block() -> impl Strategy<Value = AbsBlock> {
     )
 }
 
+/// 130..400 tiny blocks: the index record count needs a 2-byte integer
+pub fn abs_xz_many_blocks() -> BoxedStrategy<AbsXz> {
+    (
+        prop::sample::select(vec![0u8, 1, 4]),
+        prop::collection::vec(
+            (any::<bool>(), any::<bool>(), 0u8..2, any::<u8>(), any::<u16>()).prop_map(|(has_packed, has_unpacked, extra_pad4, seed, len_sel)| AbsBlock {
+                has_packed,
+                has_unpacked,
+                extra_pad4,
+                dict_extra: 0,
+                chunks: vec![AbsChunk::Raw { reset_dict: true, len_class: if seed % 4 == 0 { 1 } else { 0 }, len_sel, fill: seed % 3, seed }],
+            }),
+            130..400,
+        ),
+    )
+        .prop_map(|(check, blocks)| AbsXz { check, blocks, max_block_out: 1000 })
+        .boxed()
+}
+
 pub fn abs_xz(max_blocks: usize, max_chunks: usize, max_ops: usize, max_block_out: usize) -> BoxedStrategy<AbsXz> {
     (
         prop::sample::select(vec![0u8, 1, 4]),
